@@ -228,6 +228,20 @@ class Session:
             self.inconclusive.append(name)
         return qr
 
+    def path_infeasible(self, name, pc, timeout_ms=5000):
+        """True if the path condition (plus environment facts) is already contradictory under the linear
+        abstraction: every claim on such a path holds vacuously; recorded as one discharged obligation."""
+        try:
+            la = LinearAbstraction()
+            acs = [la.conv(_z(c)) for c in pc] + la.side
+            v, _, dt = self._solve(acs, timeout_ms)
+        except (z3.Z3Exception, RecursionError):
+            return False
+        if v == "unsat":
+            self.results.append(QueryResult(name, "unsat", None, dt, {"stage": "linear-abstraction", "vacuous_path": True}))
+            return True
+        return False
+
     def prove_eq(self, name, assumptions, lhs, rhs, **kw):
         """Real equality lhs == rhs (R values)."""
         l, r = R(lhs), R(rhs)
@@ -305,12 +319,17 @@ class Session:
             if k in done:
                 continue
             c, a, b = t.children()
-            q = self.prove(f"[if-resolution] {str(c)[:60]}", pc, c, timeout_ms=3000, tags={"optional": True, "aux": True})
+            # only clip-like conditions (comparison against a numeral) are worth a query
+            if not (z3.is_app(c) and c.decl().kind() in (z3.Z3_OP_LE, z3.Z3_OP_GE, z3.Z3_OP_LT, z3.Z3_OP_GT)
+                    and any(z3.is_rational_value(x) or z3.is_int_value(x) for x in c.children())):
+                done[k] = (t, None)
+                continue
+            q = self.prove(f"[if-resolution] {str(c)[:60]}", pc, c, timeout_ms=10000, tags={"optional": True, "aux": True})
             self.results.pop()
             if q.holds:
                 done[k] = (t, a)
             else:
-                q = self.prove(f"[if-resolution] not {str(c)[:60]}", pc, z3.Not(c), timeout_ms=3000, tags={"optional": True, "aux": True})
+                q = self.prove(f"[if-resolution] not {str(c)[:60]}", pc, z3.Not(c), timeout_ms=10000, tags={"optional": True, "aux": True})
                 self.results.pop()
                 done[k] = (t, b) if q.holds else (t, None)
             if done[k][1] is not None:
